@@ -45,7 +45,7 @@ class BarrierStats:
 class _BarrierWaiter:
     """A party waiting at the barrier."""
 
-    callback: Callable[[], Any]
+    callback: Callable[[bool], Any]  # called with True (tripped) or False (reset/aborted)
     enqueue_time_ns: int
 
 
@@ -177,6 +177,10 @@ class Barrier(Entity):
                 break
             yield released
 
+        # Released by reset()/abort() rather than by the last party arriving
+        if released.is_resolved and released.value is False:
+            raise RuntimeError(f"Barrier {self.name} is broken")
+
         # Record wait time
         if self._clock:
             wait_time = self._clock.now.nanoseconds - enqueue_time
@@ -195,7 +199,7 @@ class Barrier(Entity):
             if self._clock:
                 wait_time = self._clock.now.nanoseconds - waiter.enqueue_time_ns
                 self._total_wait_time_ns += wait_time
-            waiter.callback()
+            waiter.callback(True)
 
         # Advance to next generation
         self._generation += 1
@@ -215,7 +219,7 @@ class Barrier(Entity):
         # Wake all waiters (they'll see broken state)
         while self._waiters:
             waiter = self._waiters.popleft()
-            waiter.callback()
+            waiter.callback(False)
 
         # Reset to clean state
         self._broken = False
@@ -232,7 +236,7 @@ class Barrier(Entity):
         # Wake all waiters
         while self._waiters:
             waiter = self._waiters.popleft()
-            waiter.callback()
+            waiter.callback(False)
 
     def handle_event(self, event: Event) -> None:
         """Barrier doesn't directly handle events."""
